@@ -74,7 +74,7 @@ theorem sum_modify (l : List G) (j : Nat) (Q : G) (hj : j < l.length) :
     | zero => simp [List.modify_cons]; abel
     | succ j =>
       have : j < t.length := by simpa using hj
-      simp [List.modify_cons, ih j this]; abel
+      simp [ih j this]; abel
 
 theorem wsum_modify (l : List G) (j : Nat) (Q : G) (hj : j < l.length) :
     wsum (l.modify j (· + Q)) = wsum l + (j + 1) • Q := by
